@@ -22,6 +22,14 @@ steer = {
          "collection of one, two features that are each fine alone (e.g. station keeping + impulse, time bias + slew limit, "
          "importer + event, output step + run split, pruning + closure), or a caller of the anchored functions elsewhere in "
          "the package that depends on the clause.",
+    "9": "Prefer changes whose effect appears only after a HISTORY: the third or later step of a run, a second run or a "
+         "re-used object in the same process, an object restored from the database or re-created after a removal, a value "
+         "that only goes wrong when two rarely combined options are both set, a branch taken only for a collection of "
+         "three or more / of exactly one / empty, a numeric path taken only at unusual but legal magnitudes or exactly on a "
+         "boundary (equality, zero, a wrap point, the last sample), a cache or memo that is keyed or invalidated wrongly, "
+         "an ordering assumption (sorted input, completion order, dict order) that normally happens to hold, or a helper "
+         "that other modules of the package call and that the property depends on indirectly. Avoid the first idea that "
+         "comes to mind for this property: earlier rounds have used the obvious sites already (list below).",
 }.get(rnd, "")
 print(f"""You are helping to evaluate a verification harness for the Python library vtnsi/resonaate (a space-surveillance
 simulator). You have your OWN scratch git worktree of the library at {wt} (create it first with
